@@ -2,12 +2,12 @@
 PROPS["C03"] = dict(
     props_file="Properties/C03.v",
     harnesses=[
-        dict(cmd="build", mod="root", model="Model.EsgzBuild", quick=150, thorough=4000, shard=50, coq_jobs=8, race=150,
+        dict(cmd="build", mod="root", model="Model.EsgzBuild", quick=120, thorough=4000, shard=30, coq_jobs=8, race=150,
              preamble="Open Scope N_scope.",
              require=["mode.build", "mode.writer", "mode.lossless", "fmt.gzip", "fmt.zstd", "fmt.ext", "incomp.gzip", "incomp.zstd",
                       "minchunk.on", "toc.inner", "toc.chunk", "build.parallel", "case.chunked", "result.error", "result.ok",
                       "lossless.checked", "writer.multicall", "writer.multicall.minchunk",
-                      "dup.respelled.build", "dup.respelled.writer", "dup.respelled.triple", "dup.respelled.mixedtype", "prio.respelled", "prio.general", "open.checked"]),
+                      "dup.respelled.build", "dup.respelled.writer", "dup.respelled.triple", "dup.respelled.mixedtype", "prio.respelled", "prio.general", "open.checked", "reuse.ext", "reuse.gzip", "reuse.zstd", "reuse.builds3"]),
         dict(cmd="buildfooter", mod="root", model="Model.EsgzFooter", quick=200, thorough=6000, shard=100, coq_jobs=8,
              preamble="Open Scope N_scope.",
              require=["fmt.gzip", "fmt.legacy", "fmt.zstd", "fmt.ext", "kind.enc", "kind.parse", "parse.ok", "parse.err"]),
